@@ -354,6 +354,25 @@ class SpecMixin:
         if name == 'sameobj':
             x, y = self.sev(env, args[0]), self.sev(env, args[1])
             return getattr(x, 'ident', None) == getattr(y, 'ident', None) if hasattr(x, 'ident') else z3.BoolVal(x is y)
+        if name in ('isNaN', 'isInf', 'signbit', 'isZero', 'rtz', 'rtn', 'rtp', 'same', 'fpabs', 'fpneg', 'posinf', 'neginf', 'fnan', 'fpeq', 'fsqrt', 'f64'):
+            vals = [self.sev(env, a) for a in args]
+            if name == 'isNaN': return z3.fpIsNaN(vals[0])
+            if name == 'isInf': return z3.fpIsInf(vals[0])
+            if name == 'signbit': return z3.fpIsNegative(vals[0])          # sign bit set (true for -0; NaNs excluded by callers)
+            if name == 'isZero': return z3.fpIsZero(vals[0])
+            if name == 'rtz': return z3.fpRoundToIntegral(z3.RTZ(), vals[0])
+            if name == 'rtn': return z3.fpRoundToIntegral(z3.RTN(), vals[0])
+            if name == 'rtp': return z3.fpRoundToIntegral(z3.RTP(), vals[0])
+            if name == 'same': return z3.Or(z3.And(z3.fpIsNaN(vals[0]), z3.fpIsNaN(vals[1])), vals[0] == vals[1])      # identical up to NaN payload
+            if name == 'fpeq': return z3.fpEQ(vals[0], vals[1])
+            if name == 'fpabs': return z3.fpAbs(vals[0])
+            if name == 'fpneg': return z3.fpNeg(vals[0])
+            if name == 'fsqrt': return z3.fpSqrt(z3.RNE(), vals[0])
+            if name == 'posinf': return z3.fpPlusInfinity(F64)
+            if name == 'neginf': return z3.fpMinusInfinity(F64)
+            if name == 'fnan': return z3.fpNaN(F64)
+            if name == 'f64':
+                c0 = z3.simplify(vals[0]); return z3.FPVal(float(c0.as_long()), F64)
         if name == 'unboxint':
             from .gocalls import unbox_int
             return unbox_int(self.refof(self.sev(env, args[0])))
